@@ -23,11 +23,18 @@ var sh = shadow(x2);
 var boundArg = function(p, q){ return p.deep + q }.bind(null, o.nested);
 var wc = (function(){ var local = x1; var env = {w: x2}; with (env) { return {get: function(){ return [w, local, x0] }, set: function(v){ local = v; w = v }} } })();
 var cc; try { throw x0 } catch (e) { cc = {get: function(){ return e }, set: function(v){ e = v }} }
+var re = /a/g; re.lastIndex = 2; re.tag = x0;
+var wrapped = new Number(x1); wrapped.extra = x2;
+var err = new TypeError('msg'); err.code = x0;
+var dt = new Date(86400000); dt.tag = x1;
+var holes = [x0, , x2]; holes.prop = x1;
 function observe(){
   return [o.a, o.inherited, o.nested.deep, o.nested.list.length, o.nested.list[0], 2 in o.nested.list, o.acc,
           counter.get(), args.length, args[0], args[1], bound(1), Object.isFrozen(frozen), frozen.f,
           Object.keys(o).join(','), [].extra(), Object.getPrototypeOf(o) === base, typeof Math.max, sh(), mapped.args[0], mapped.getA(), mapped.args.length, 0 in mapped.args,
-          boundArg(1), wc.get()[0], wc.get()[1], wc.get()[2], cc.get()];
+          boundArg(1), wc.get()[0], wc.get()[1], wc.get()[2], cc.get(),
+          re.lastIndex, re.tag, re.source, re.global, wrapped.valueOf(), wrapped.extra, typeof wrapped, err.message, err.code, err instanceof TypeError, dt.getTime(), dt.tag,
+          holes.length, 1 in holes, holes[2], holes.prop];
 }
 `
 
@@ -53,6 +60,10 @@ var verifCopyMutations = []string{
 	"delete mapped.args[0]; mapped.setA(m)",
 	"delete o.nested; o.late = m",
 	"bound = null; delete frozen.f",
+	"re.lastIndex = 1; re.tag = m",
+	"re.exec('aaaa'); wrapped.extra = m",
+	"err.message = 'other'; err.code = m; dt.tag = m",
+	"holes[1] = m; holes.prop = m; delete holes[0]",
 	"wc.set(m)",
 	"cc.set(m)",
 	"x0 = m",
